@@ -1,4 +1,5 @@
 import Gv.Model.Clean
+import Gv.Model.Translate
 /-!
 Model of the column statistics of `align/align.go`, `align/seqbag.go`, `align/sequence.go`
 (property C14).  Counting functions are exact; the float-valued ones (`Entropy`, `AvgAllelesPerSite`)
@@ -262,5 +263,43 @@ def listMutationsVsRef (alphabet : Nat) (s ref : Seq) : Option (List (Byte × Na
       some (listMutLoop 78 ((s.zip (ref.zip (sc.zip rc))).map fun (c, r, a, b) => (c, r, (equalOrCompatible a b).getD true)) 0 [])
     | _, _ => none
   else some (listMutLoop 88 ((s.zip ref).map fun (c, r) => (c, r, c == r)) 0 [])
+
+/-! ### the codon-wise mutation list (`listMutationsComparedToReferenceSequenceAA`) -/
+
+/-- what the body of the outer loop appends for one reference segment: `refaa` the amino acid of the reference
+codon (`-` for three reference gaps), `allgaps` the test on the three reference columns, `pos` the value of
+`aaidx` when the entry is written, `chunk` the query columns `refcodonidx[0] … refcodonidx[2]`.  The alternative is
+`-` (only gaps facing a reference codon: deletion), `/` (a number of residues that is not a multiple of 3) or the
+translation of the residues codon by codon, reported when it holds more than one amino acid or differs. -/
+def aaEntry (code : List (List Byte × Byte)) (refaa : Byte) (allgaps : Bool) (pos : Int) (chunk : Seq) :
+    List (Byte × Int × List Byte) :=
+  let tmp := chunk.filter (· != GAP)
+  if tmp.length == 0 then (if allgaps then [] else [(refaa, pos, [GAP])])
+  else if tmp.length % 3 != 0 then [(refaa, pos, [47])]
+  else
+    let cur := codonsFrom code tmp
+    if cur.length > 1 || cur.any (· != refaa) then [(refaa, pos, cur)] else []
+
+/-- the outer loop, segment after segment (`refSegs`: the same walk over the reference as `TranslateByReference`);
+`q`, `r` are the columns of the query and of the reference from `refcodonidx[0]` (before the skip) on; `aaidx` is the
+counter of the Go code at the top of the iteration: three reference gaps are reported at `aaidx - 1` and do not
+advance it (`aaidx--` … `aaidx++`), so the first entry may carry the position −1 -/
+def listMutAALoop (code : List (List Byte × Byte)) : List RefSeg → Seq → Seq → Int → List (Byte × Int × List Byte)
+  | [], _, _, _ => []
+  | sg :: ss, q, r, aaidx =>
+    let q' := q.drop sg.skip
+    let r' := r.drop sg.skip
+    let allgaps := (r'.take sg.len).all (· == GAP)
+    let pos := if allgaps then aaidx - 1 else aaidx
+    aaEntry code sg.aa allgaps pos (q'.take sg.len) ++ listMutAALoop code ss (q'.drop sg.len) (r'.drop sg.len) (pos + 1)
+
+/-- `ListMutationsComparedToReferenceSequence(alphabet, ref, true)`: `none` = error (different lengths, an alphabet
+other than nucleotides); no character is rejected (what is not an IUPAC code translates to `X`) -/
+def listMutationsVsRefAA (alphabet : Nat) (s ref : Seq) : Option (List (Byte × Int × List Byte)) :=
+  if s.length != ref.length then none else
+  if alphabet != NUCLEOTIDS then none else
+  match geneticCode Gen.c_GENETIC_CODE_STANDARD with
+  | none => none
+  | some code => some (listMutAALoop code (refSegs code ref.length ref) s ref 0)
 
 end Gv.Model
